@@ -133,7 +133,9 @@ func c01GenOp(g *Rng, st *c01Step, k c01Knobs) c01Op {
 		return Pick(g, "same", "same", "edited", "fresh", "fresh", "fresh-Id", "fresh-id", "fresh-nsID")
 	}
 	fld := func() string { return Pick(g, "nameid", "nameid", "attr", "issuer", "audience") }
-	switch g.PickW(8, 8, 9, 3, 12, 10, 7, 10, 8, 5, 9, 9, 8, 4, 5, 4) {
+	switch g.PickW(8, 8, 9, 3, 12, 10, 7, 10, 8, 5, 9, 9, 8, 4, 5, 4, 6) {
+	case 16:
+		return c01Op{Op: "declare-unused-ns", Target: asrt(), Variant: g.Intn(len(c01NSDecls) + 3)}
 	case 0:
 		return c01Op{Op: "strip-sig", Target: anyT()}
 	case 1:
@@ -1033,6 +1035,19 @@ func (m *c01Msg) mEncrypt(el *etree.Element) *etree.Element {
 	return blob
 }
 
+// c01NSDecls: (element, prefix, "namespace URI") - declarations nobody uses, named after attributes of that element
+var c01NSDecls = [][3]string{
+	{"NameID", "Format", "urn:oasis:names:tc:SAML:1.1:nameid-format:emailAddress"},
+	{"NameID", "NameQualifier", "zQevilnqQz"},
+	{"Attribute", "Name", "zQevilattrQz"},
+	{"Attribute", "FriendlyName", "role"},
+	{"AuthnStatement", "SessionIndex", "zQevilsessionQz"},
+	{"SubjectConfirmationData", "Recipient", "https://evil.example.com/acs"},
+	{"SubjectConfirmationData", "NotOnOrAfter", "2099-01-01T00:00:00Z"},
+	{"Conditions", "NotOnOrAfter", "2099-01-01T00:00:00Z"},
+	{"SubjectConfirmation", "Method", "urn:oasis:names:tc:SAML:2.0:cm:sender-vouches"},
+}
+
 // apply executes one operator; it reports whether the message changed.
 func (m *c01Msg) apply(op c01Op) bool {
 	ai := m.asrtIndex(op.Target)
@@ -1405,6 +1420,34 @@ func (m *c01Msg) apply(op c01Op) bool {
 			f.AddChild(a)
 		}
 		return true
+
+	case "declare-unused-ns":
+		// exclusive canonicalisation leaves declarations nobody uses out of the signed octets: every signature stands, nothing the
+		// message says changes
+		if v := op.Variant; v >= len(c01NSDecls) {
+			// ... or an element outside every signature uses a prefix called like an attribute of the root elements (a decoder that
+			// re-declares the document's prefixes on what it decodes meets it there)
+			pfx := []string{"ID", "IssueInstant", "Version"}[(v-len(c01NSDecls))%3]
+			e := etree.NewElement(pfx + ":Trailer")
+			e.CreateAttr("xmlns:"+pfx, []string{"id-evil", "2099-01-01T00:00:00Z", "1.1"}[(v-len(c01NSDecls))%3])
+			m.vis.AddChild(e)
+			return true
+		}
+		a := m.plain(op.Target)
+		if a == nil {
+			return false
+		}
+		d := c01NSDecls[op.Variant]
+		var all []*etree.Element
+		c01All(a, &all)
+		n := 0
+		for _, e := range all {
+			if e.Tag == d[0] {
+				e.CreateAttr("xmlns:"+d[1], d[2])
+				n++
+			}
+		}
+		return n > 0
 
 	case "ns-trick":
 		ref := m.gas[ai%len(m.gas)]
